@@ -8,24 +8,19 @@ package main
 
 import (
 	"fmt"
-	"net"
-	"os"
-	"runtime"
-	"sort"
 	"strconv"
 	"strings"
-	"sync"
 	"time"
 
 	"github.com/256dpi/gomqtt/broker"
 	"github.com/256dpi/gomqtt/packet"
-	"github.com/256dpi/gomqtt/transport"
 
 	"verifh/hx"
 )
 
 func main() {
-	hx.Main(map[string]func(*hx.Ctx){"c06": runC06, "c08": runC08, "c12": runC12, "c13": runC13, "c14": runC14, "c15": runC15, "c16": runC16})
+	hx.Main(map[string]func(*hx.Ctx){"c06": runC06, "c08": runC08, "c12": runC12, "c13": runC13, "c14": runC14, "c15": runC15, "c16": runC16,
+		"e2e": func(c *hx.Ctx) { endToEnd(newOut(c), c) }})
 }
 
 type sys struct {
@@ -44,7 +39,7 @@ func startSys(window int, queue int) *sys {
 	if queue > 0 {
 		b.SessionQueueSize = queue
 	}
-	b.KillTimeout = 2 * time.Second
+	b.KillTimeout = 3 * long // never reached unless something is stuck: gates are released within `long`
 	e := broker.NewEngine(b)
 	port, quit, done := broker.Run(e, "tcp")
 	return &sys{backend: b, engine: e, port: port, quit: quit, done: done}
@@ -54,11 +49,11 @@ func (s *sys) stop() bool {
 	// a backend whose global mutex is held forever would block Close itself: bound the whole shutdown
 	res := make(chan bool, 1)
 	go func() {
-		ok := s.backend.Close(3 * time.Second)
+		ok := s.backend.Close(long)
 		close(s.quit)
 		select {
 		case <-s.done:
-		case <-time.After(3 * time.Second):
+		case <-time.After(long):
 			ok = false
 		}
 		res <- ok
@@ -66,44 +61,8 @@ func (s *sys) stop() bool {
 	select {
 	case ok := <-res:
 		return ok
-	case <-time.After(8 * time.Second):
+	case <-time.After(3 * long):
 		return false
-	}
-}
-
-type out struct {
-	c   *hx.Ctx
-	mu  sync.Mutex
-	n   int
-	bad int
-}
-
-func (o *out) scn(name string) int {
-	o.mu.Lock()
-	defer o.mu.Unlock()
-	o.n++
-	o.c.Emit("scn %d %s", o.n, name)
-	fmt.Fprintf(os.Stderr, "begin %d %s\n", o.n, name)
-	return o.n
-}
-
-func (o *out) direct(clause string, n int, ok bool, detail string) {
-	o.mu.Lock()
-	defer o.mu.Unlock()
-	if ok {
-		o.c.Emit("direct %s scn=%d ok %s", clause, n, detail)
-	} else {
-		o.bad++
-		o.c.Emit("direct %s scn=%d FAIL %s", clause, n, detail)
-	}
-	o.c.Stat("direct_"+clause, 1)
-}
-
-func (o *out) syslog(n int, s *sys) {
-	o.mu.Lock()
-	defer o.mu.Unlock()
-	for _, l := range s.backend.log.snapshot() {
-		o.c.Emit("sys %d %s", n, l)
 	}
 }
 
@@ -144,10 +103,7 @@ func publishStream(p *peer, pub int, topic string, count int, nextID *int) {
 			if q > 0 {
 				*nextID++
 				m.ID = packet.ID(*nextID)
-				deadline := time.Now().Add(3 * time.Second)
-				for sent-ackCount(p) >= 5 && time.Now().Before(deadline) {
-					time.Sleep(200 * time.Microsecond)
-				}
+				waitFor(3*long, func() bool { return sent-ackCount(p) < 5 })
 				sent++
 			}
 			if p.send(m) != nil {
@@ -188,7 +144,7 @@ func checkOrder(pubs []*packet.Publish) (bool, string) {
 // a persistent subscriber that withholds acknowledgements, is cut, reconnects (repeatedly, also
 // during the resend phase), while messages keep being published — also while it is offline
 func runC08(c *hx.Ctx) {
-	o := &out{c: c}
+	o := newOut(c)
 	rounds := 8
 	if c.Thorough() {
 		rounds = 60
@@ -221,22 +177,18 @@ func runC08(c *hx.Ctx) {
 				sent++
 			}
 			// wait until the broker has acknowledged them all (accepted responsibility)
-			deadline := time.Now().Add(3 * time.Second)
-			for ackCount(feeder) < sent && time.Now().Before(deadline) {
-				time.Sleep(500 * time.Microsecond)
-			}
+			waitFor(3*long, func() bool { return ackCount(feeder) >= sent })
 		}
 		var all []*packet.Publish
 		for cut := 0; cut < cuts; cut++ {
-			sub.mu.Lock()
-			sub.hold = 1 + c.Rng.Intn(w+2) // leave 1..window+2 deliveries unacknowledged
-			sub.mu.Unlock()
+			hold := 1 + c.Rng.Intn(w+2) // leave 1..window+2 deliveries unacknowledged (the window caps what is in flight)
+			sub.setHold(hold)
 			send(w + 2)
-			time.Sleep(10 * time.Millisecond)
+			waitFor(long, func() bool { return sub.heldCount() >= hold || sub.heldCount() >= w })
 			all = append(all, sub.received()...)
 			c.Emit("info scn=%d cut=%d sent=%d received_so_far=%d hold_left=%d", n, cut, sent, len(all), sub.hold)
 			sub.close()
-			sub.isClosed(time.Second)
+			sub.isClosed(long)
 			// published while the subscriber is offline: queued, delivered after reconnect
 			send(2)
 			np, _ := dialPeer(fmt.Sprintf("sub-r%d", cut), s.port, true)
@@ -254,7 +206,7 @@ func runC08(c *hx.Ctx) {
 				time.Sleep(5 * time.Millisecond)
 				all = append(all, np.received()...)
 				np.close()
-				np.isClosed(time.Second)
+				np.isClosed(long)
 				np, _ = dialPeer(fmt.Sprintf("sub-r%d-b", cut), s.port, true)
 				np.state = st
 			}
@@ -266,11 +218,12 @@ func runC08(c *hx.Ctx) {
 		all = append(all, sub.received()...)
 		// a last unclean reconnect that acknowledges everything it gets: whatever is still recorded must come again
 		sub.close()
-		sub.isClosed(time.Second)
+		sub.isClosed(long)
 		fin, _ := dialPeer("sub-final", s.port, true)
 		fin.state = st
 		fin.connect("sub", false, nil)
-		fin.idle(30*time.Millisecond, 3*time.Second)
+		waitFor(long, func() bool { return len(st.missing(sent)) == 0 })
+		time.Sleep(absence)
 		all = append(all, fin.received()...)
 		sub = fin
 		// every accepted message was delivered AND could be acknowledged by the subscriber (a message it never
@@ -303,7 +256,7 @@ func runC08(c *hx.Ctx) {
 		send(2)
 		time.Sleep(5 * time.Millisecond)
 		sub.close()
-		sub.isClosed(time.Second)
+		sub.isClosed(long)
 		cl, _ := dialPeer("sub-clean", s.port, true)
 		a4 := cl.connect("sub", true, nil)
 		send(2)
@@ -320,945 +273,3 @@ func runC08(c *hx.Ctx) {
 	coSubscriber(o, c)
 }
 
-// ------------------------------------------------------------------- C15
-
-func runC15(c *hx.Ctx) {
-	o := &out{c: c}
-	defer backPressure(o, c, false)
-	type cfg struct {
-		pubs, subs, window, count int
-		cut                       bool
-	}
-	var cfgs []cfg
-	for _, w := range []int{1, 2, 3, 10} {
-		cfgs = append(cfgs, cfg{1, 1, w, 20, false}, cfg{3, 2, w, 12, false}, cfg{2, 2, w, 12, true})
-	}
-	cfgs = append(cfgs, cfg{8, 4, 5, 8, false}, cfg{8, 4, 2, 8, true})
-	if c.Thorough() {
-		for w := 1; w <= 10; w++ {
-			cfgs = append(cfgs, cfg{1 + c.Rng.Intn(8), 1 + c.Rng.Intn(4), w, 30, w%2 == 0})
-		}
-	}
-	for _, cf := range cfgs {
-		name := fmt.Sprintf("c15 pubs=%d subs=%d window=%d count=%d cut=%v", cf.pubs, cf.subs, cf.window, cf.count, cf.cut)
-		n := o.scn(name)
-		s := startSys(cf.window, 10000)
-		var subs []*peer
-		okAll := true
-		for i := 0; i < cf.subs; i++ {
-			sp, err := dialPeer(fmt.Sprintf("sub%d", i), s.port, true)
-			if err != nil || sp.connect(fmt.Sprintf("sub%d", i), false, nil) == nil {
-				okAll = false
-				break
-			}
-			// differing granted QoS, overlapping filters
-			sp.subscribe(1, "all", i%3)
-			sp.subscribe(2, "pub/#", (i+1)%3)
-			subs = append(subs, sp)
-		}
-		if !okAll {
-			o.direct("order", n, false, "could not set up subscribers")
-			s.stop()
-			continue
-		}
-		var wg sync.WaitGroup
-		for i := 0; i < cf.pubs; i++ {
-			wg.Add(1)
-			go func(i int) {
-				defer wg.Done()
-				pp, err := dialPeer(fmt.Sprintf("pub%d", i), s.port, true)
-				if err != nil || pp.connect(fmt.Sprintf("pub%d", i), true, nil) == nil {
-					return
-				}
-				id := 0
-				topic := "all"
-				if i%2 == 1 {
-					topic = fmt.Sprintf("pub/%d", i)
-				}
-				publishStream(pp, i, topic, cf.count, &id)
-				// wait until every QoS>0 publish is acknowledged
-				deadline := time.Now().Add(5 * time.Second)
-				for ackCount(pp) < 2*cf.count && time.Now().Before(deadline) {
-					time.Sleep(time.Millisecond)
-				}
-				pp.send(&packet.Disconnect{})
-			}(i)
-		}
-		if cf.cut {
-			// one subscriber stops acknowledging, is cut while 2..window messages are unacknowledged, and resumes
-			victim := subs[0]
-			victim.mu.Lock()
-			victim.hold = 2 + c.Rng.Intn(cf.window+1)
-			victim.mu.Unlock()
-			time.Sleep(20 * time.Millisecond)
-			before := victim.received()
-			victim.close()
-			victim.isClosed(time.Second)
-			np, err := dialPeer("sub0r", s.port, true)
-			if err == nil {
-				ack := np.connect("sub0", false, nil)
-				if ack == nil || !ack.SessionPresent {
-					o.direct("resume", n, false, "resumed subscriber did not get session-present")
-				}
-				subs[0] = np
-				wg.Wait()
-				np.idle(30*time.Millisecond, 3*time.Second)
-				// retransmitted packets first, in the order of their original transmission
-				var origUnacked []int
-				for _, p := range before {
-					if p.Message.QOS > 0 {
-						origUnacked = append(origUnacked, int(p.ID))
-					}
-				}
-				var dups []int
-				for _, p := range np.received() {
-					if p.Dup {
-						dups = append(dups, int(p.ID))
-					}
-				}
-				// the dup ids must appear in the relative order in which those ids were first sent
-				pos := map[int]int{}
-				for i, id := range origUnacked {
-					if _, ok := pos[id]; !ok {
-						pos[id] = i
-					}
-				}
-				okd := true
-				lastp := -1
-				for _, id := range dups {
-					if pp, ok := pos[id]; ok {
-						if pp < lastp {
-							okd = false
-						}
-						lastp = pp
-					}
-				}
-				o.direct("resend_order", n, okd, fmt.Sprintf("first transmission ids %v, retransmitted (dup) ids %v", origUnacked, dups))
-				all := append(before, np.received()...)
-				ok, d := checkOrder(all)
-				o.direct("order", n, ok, "resumed subscriber: "+d)
-			}
-		}
-		wg.Wait()
-		for i, sp := range subs {
-			if cf.cut && i == 0 {
-				continue
-			}
-			sp.idle(30*time.Millisecond, 3*time.Second)
-			got := sp.received()
-			ok, d := checkOrder(got)
-			o.direct("order", n, ok, fmt.Sprintf("%s received %d publishes, %s", sp.name, len(got), d))
-			// completeness for QoS>0 streams at delivery QoS>0 is C06/C08's business; here only order
-		}
-		for _, sp := range subs {
-			sp.close()
-		}
-		s.stop()
-		o.syslog(n, s)
-		c.Stat("scenarios", 1)
-	}
-	// a backlogged subscriber with overlapping subscriptions of differing granted QoS: one publisher alternates
-	// between two topics at each QoS while the subscriber withholds its acknowledgements (the window fills, both
-	// session queues fill), then everything is acknowledged and drained: per (publisher, QoS, delivery QoS) order
-	for _, w := range []int{1, 2} {
-		n := o.scn(fmt.Sprintf("c15 backlog window=%d", w))
-		s := startSys(w, 10000)
-		sub, err := dialPeer("bsub", s.port, true)
-		if err != nil || sub.connect("bsub", true, nil) == nil {
-			o.direct("order", n, false, "could not connect")
-			s.stop()
-			continue
-		}
-		sub.state = newSubState()
-		sub.subscribe(1, "ba", 1)
-		sub.subscribe(2, "bb", 0)
-		sub.mu.Lock()
-		sub.hold = 1 << 20
-		sub.mu.Unlock()
-		pp, _ := dialPeer("bpub", s.port, true)
-		pp.connect("bpub", true, nil)
-		id := 0
-		sent := 0
-		for i := 0; i < 60; i++ {
-			for q := 0; q <= 1; q++ {
-				topic := "ba"
-				if (i+q)%2 == 1 {
-					topic = "bb"
-				}
-				m := &packet.Publish{Message: packet.Message{Topic: topic, Payload: payload(7, q, i), QOS: packet.QOS(q)}}
-				if q > 0 {
-					id++
-					m.ID = packet.ID(id)
-					sent++
-					deadline := time.Now().Add(2 * time.Second)
-					for sent-ackCount(pp) >= 5 && time.Now().Before(deadline) {
-						time.Sleep(200 * time.Microsecond)
-					}
-				}
-				pp.send(m)
-			}
-		}
-		time.Sleep(30 * time.Millisecond)
-		// acknowledge step by step so that the dequeuer drains both queues while they are both non-empty
-		for k := 0; k < 200; k++ {
-			sub.releaseHeld()
-			sub.mu.Lock()
-			sub.hold = 1 << 20
-			sub.mu.Unlock()
-			time.Sleep(2 * time.Millisecond)
-			if len(sub.received()) >= 120 {
-				break
-			}
-		}
-		sub.releaseHeld()
-		sub.idle(30*time.Millisecond, 2*time.Second)
-		got := sub.received()
-		ok, d := checkOrder(got)
-		o.direct("order", n, ok, fmt.Sprintf("backlogged subscriber received %d publishes, %s", len(got), d))
-		sub.close()
-		pp.close()
-		s.stop()
-		o.syslog(n, s)
-		c.Stat("scenarios", 1)
-	}
-}
-
-// ------------------------------------------------------------------- C13
-
-func runC13(c *hx.Ctx) {
-	o := &out{c: c}
-	rounds := 6
-	if c.Thorough() {
-		rounds = 40
-	}
-	for r := 0; r < rounds; r++ {
-		k := 2 + c.Rng.Intn(7) // 2..8 simultaneous attempts
-		oldState := []string{"idle", "mid-handshake", "traffic", "dying"}[r%4]
-		name := fmt.Sprintf("c13 round=%d attempts=%d old=%s", r, k, oldState)
-		n := o.scn(name)
-		s := startSys(3, 100)
-		// the old connection with a persistent session, a subscription and an unacknowledged delivery
-		old, err := dialPeer("old", s.port, false)
-		if err != nil || old.connect("same", false, &packet.Message{Topic: "will/same", Payload: []byte("w"), QOS: 1}) == nil {
-			o.direct("takeover", n, false, "could not connect the first holder")
-			s.stop()
-			continue
-		}
-		old.subscribe(1, "t/#", 1)
-		watcher, _ := dialPeer("watch", s.port, true)
-		watcher.connect("watch", true, nil)
-		watcher.subscribe(1, "will/#", 1)
-		feeder, _ := dialPeer("feed", s.port, true)
-		feeder.connect("feed", true, nil)
-		feed := func(i int) {
-			feeder.send(&packet.Publish{ID: packet.ID(100 + i), Message: packet.Message{Topic: "t/x", Payload: payload(0, 1, i), QOS: 1}})
-		}
-		feed(0) // stays unacknowledged at the old connection (it does not auto-ack)
-		old.await(func(g packet.Generic) bool { _, ok := g.(*packet.Publish); return ok }, time.Second)
-		stopFeed := make(chan struct{})
-		var fwg sync.WaitGroup
-		if oldState == "traffic" {
-			fwg.Add(1)
-			go func() {
-				defer fwg.Done()
-				for i := 1; i < 40; i++ {
-					select {
-					case <-stopFeed:
-						return
-					default:
-					}
-					feed(i)
-					time.Sleep(time.Millisecond)
-				}
-			}()
-		}
-		if oldState == "mid-handshake" {
-			old.send(&packet.Publish{ID: 9, Message: packet.Message{Topic: "u", Payload: []byte("x"), QOS: 2}})
-		}
-		// k simultaneous attempts with the same id, clean and unclean mixed (the first one unclean)
-		peers := make([]*peer, k)
-		acks := make([]*packet.Connack, k)
-		var wg sync.WaitGroup
-		start := make(chan struct{})
-		for i := 0; i < k; i++ {
-			wg.Add(1)
-			go func(i int) {
-				defer wg.Done()
-				p, err := dialPeer(fmt.Sprintf("new%d", i), s.port, true)
-				if err != nil {
-					return
-				}
-				peers[i] = p
-				<-start
-				acks[i] = p.connect("same", i%3 == 2, nil)
-			}(i)
-		}
-		if oldState == "dying" {
-			go func() { <-start; old.close() }()
-		}
-		close(start)
-		wg.Wait()
-		close(stopFeed)
-		fwg.Wait()
-		time.Sleep(30 * time.Millisecond)
-		// exactly one of all connections with that id is still open
-		open := 0
-		if !old.isClosed(300 * time.Millisecond) {
-			open++
-		}
-		survivors := []string{}
-		for i, p := range peers {
-			if p == nil {
-				continue
-			}
-			if !p.isClosed(20 * time.Millisecond) {
-				open++
-				survivors = append(survivors, fmt.Sprintf("new%d(connack=%v)", i, acks[i] != nil))
-			}
-		}
-		o.direct("exactly_one", n, open == 1, fmt.Sprintf("%d connection(s) with the id still open: %v", open, survivors))
-		// the will of the displaced first holder reached the watcher exactly once
-		watcher.idle(20*time.Millisecond, time.Second)
-		wills := 0
-		for _, p := range watcher.received() {
-			if p.Message.Topic == "will/same" {
-				wills++
-			}
-		}
-		o.direct("will_once", n, wills == 1, fmt.Sprintf("will of the displaced holder seen %d time(s)", wills))
-		// a witness connection with another id is still served (nothing is stalled)
-		wit, err := dialPeer("witness", s.port, true)
-		served := err == nil && wit.connect("witness", true, nil) != nil
-		o.direct("not_stalled", n, served, "a fresh client with another id gets its CONNACK")
-		if wit != nil {
-			wit.close()
-		}
-		for _, p := range peers {
-			if p != nil {
-				p.close()
-			}
-		}
-		old.close()
-		watcher.close()
-		feeder.close()
-		bad := s.backend.lifecycle(3 * time.Second)
-		o.direct("lifecycle", n, len(bad) == 0, joinLines(bad))
-		stopped := s.stop()
-		o.direct("shutdown", n, stopped, "backend and engine shut down in time")
-		o.syslog(n, s)
-		c.Stat("scenarios", 1)
-	}
-	staggeredContenders(o, c)
-	willBeforeTakeover(o, c)
-	takeoverDuringDequeue(o, c)
-	blockedTakeover(o, c)
-	// session handover: the persistent session passes to the newcomer without loss or duplication
-	for _, w := range []int{1, 3} {
-		n := o.scn(fmt.Sprintf("c13 handover window=%d", w))
-		s := startSys(w, 100)
-		old, _ := dialPeer("old", s.port, false)
-		old.connect("h", false, nil)
-		old.subscribe(1, "t", 2)
-		feeder, _ := dialPeer("feed", s.port, true)
-		feeder.connect("feed", true, nil)
-		for i := 0; i < 5; i++ {
-			feeder.send(&packet.Publish{ID: packet.ID(1 + i), Message: packet.Message{Topic: "t", Payload: payload(0, 1+i%2, i), QOS: packet.QOS(1 + i%2)}})
-		}
-		time.Sleep(30 * time.Millisecond)
-		before := old.received()
-		np, _ := dialPeer("new", s.port, true)
-		ack := np.connect("h", false, nil)
-		o.direct("handover_sp", n, ack != nil && ack.SessionPresent, "newcomer is told the session is present")
-		np.idle(30*time.Millisecond, 2*time.Second)
-		o.direct("old_closed", n, old.isClosed(time.Second), "the displaced connection is closed")
-		got := np.received()
-		seen := map[int]int{}
-		for _, p := range got {
-			_, _, i, ok := parsePayload(p.Message.Payload)
-			if ok {
-				seen[i]++
-			}
-		}
-		okAll := len(seen) == 5
-		for _, cnt := range seen {
-			if cnt != 1 {
-				okAll = false
-			}
-		}
-		// what the old connection had received unacknowledged must come again flagged dup
-		dupOK := true
-		firstNew := map[int]bool{}
-		for _, p := range got {
-			firstNew[int(p.ID)] = p.Dup
-		}
-		for _, p := range before {
-			if d, ok := firstNew[int(p.ID)]; ok && !d {
-				dupOK = false
-			}
-		}
-		o.direct("handover_messages", n, okAll, fmt.Sprintf("newcomer received message numbers %v (each of 0..4 exactly once expected)", seen))
-		o.direct("handover_dup", n, dupOK, "messages already transmitted to the old connection are flagged duplicate")
-		np.close()
-		feeder.close()
-		s.stop()
-		o.syslog(n, s)
-		c.Stat("scenarios", 1)
-	}
-}
-
-// four connections with one id arrive staggered while the Terminate of the first two is held back, so
-// that each newcomer reaches Setup while the previous takeover is still in progress: in the end exactly
-// one of them may be live
-// willBeforeTakeover: the displaced connection is fully terminated — its will handed to the backend — before the newcomer's
-// Setup returns (and so before its CONNACK).  The backend is slow at publishing wills, so a newcomer that does not wait is
-// visibly early.  Judged on the backend log: WillDone(old) precedes SetupRet(new) for the same id.
-func willBeforeTakeover(o *out, c *hx.Ctx) {
-	for _, how := range []string{"takeover", "takeover-clean", "takeover-mid-traffic"} {
-		n := o.scn("c13 will published before the newcomer is acknowledged: " + how)
-		s := startSys(3, 100)
-		s.backend.willDelay = 150 * time.Millisecond
-		old, _ := dialPeer("old", s.port, false)
-		old.connect("wb", how == "takeover-clean", &packet.Message{Topic: "will/wb", Payload: []byte("w"), QOS: 1})
-		old.subscribe(1, "t/#", 1)
-		watcher, _ := dialPeer("watch", s.port, true)
-		watcher.connect("watch", true, nil)
-		watcher.subscribe(1, "will/#", 1)
-		if how == "takeover-mid-traffic" {
-			for i := 0; i < 3; i++ {
-				watcher.send(&packet.Publish{ID: packet.ID(50 + i), Message: packet.Message{Topic: "t/x", Payload: payload(0, 1, i), QOS: 1}})
-			}
-		}
-		np, _ := dialPeer("new", s.port, true)
-		ack := np.connect("wb", how == "takeover-clean", nil)
-		ackAt := time.Now()
-		// the watcher has the will by the time the newcomer holds its CONNACK (allowing for the delivery hop)
-		watcher.idle(20*time.Millisecond, time.Second)
-		wills := 0
-		for _, p := range watcher.received() {
-			if p.Message.Topic == "will/wb" {
-				wills++
-			}
-		}
-		_ = ackAt
-		lines := s.backend.log.snapshot()
-		oldID, newID := "1", ""
-		order := []string{}
-		for _, l := range lines {
-			f := strings.Fields(l)
-			cid := f[len(f)-1]
-			switch {
-			case f[0] == "SetupCall" && f[1] == hx.Hx([]byte("wb")) && cid != oldID && newID == "":
-				newID = cid
-			}
-		}
-		for _, l := range lines {
-			f := strings.Fields(l)
-			cid := f[len(f)-1]
-			if (f[0] == "WillDone" && cid == oldID) || (f[0] == "SetupRet" && cid == newID) || (f[0] == "Term" && cid == oldID) {
-				order = append(order, f[0])
-			}
-		}
-		okOrder := ack != nil && len(order) == 3 && order[2] == "SetupRet"
-		o.direct("will_before_takeover", n, okOrder, fmt.Sprintf("backend log order for the displaced connection and the newcomer: %v (WillDone and Term before SetupRet expected)", order))
-		o.direct("will_once", n, wills == 1, fmt.Sprintf("will of the displaced holder seen %d time(s)", wills))
-		np.close()
-		old.close()
-		watcher.close()
-		s.stop()
-		o.syslog(n, s)
-		c.Stat("scenarios", 1)
-	}
-}
-
-func staggeredContenders(o *out, c *hx.Ctx) {
-	n := o.scn("c13 staggered contenders with held-back Terminate")
-	s := startSys(3, 100)
-	waitSetups := func(k int) {
-		deadline := time.Now().Add(2 * time.Second)
-		for s.backend.setupCalls("stag") < k && time.Now().Before(deadline) {
-			time.Sleep(time.Millisecond)
-		}
-		time.Sleep(40 * time.Millisecond) // let it get as far as it can (blocked in Setup or on the setup lock)
-	}
-	relA := s.backend.holdTerminate("stag", 1)
-	relB := s.backend.holdTerminate("stag", 2)
-	a, _ := dialPeer("A", s.port, true)
-	a.connect("stag", true, nil)
-	type res struct {
-		p   *peer
-		ack *packet.Connack
-	}
-	start := func(name string) chan res {
-		ch := make(chan res, 1)
-		go func() {
-			p, err := dialPeer(name, s.port, true)
-			if err != nil {
-				ch <- res{}
-				return
-			}
-			ch <- res{p, p.connect("stag", true, nil)}
-		}()
-		return ch
-	}
-	chB := start("B")
-	waitSetups(2) // B is inside Setup, waiting for A, whose Terminate is held
-	chC := start("C")
-	waitSetups(3) // C waits for the setup lock
-	relA()        // A terminates: B completes
-	rB := <-chB
-	time.Sleep(40 * time.Millisecond) // C closes B and waits for it (B's Terminate is held)
-	chD := start("D")
-	waitSetups(4)
-	relB()
-	rC := <-chC
-	rD := <-chD
-	time.Sleep(60 * time.Millisecond)
-	open := []string{}
-	for _, x := range []struct {
-		name string
-		p    *peer
-	}{{"A", a}, {"B", rB.p}, {"C", rC.p}, {"D", rD.p}} {
-		if x.p != nil && !x.p.isClosed(30*time.Millisecond) {
-			open = append(open, x.name)
-		}
-	}
-	o.direct("exactly_one", n, len(open) == 1, fmt.Sprintf("connections with the id still open after four staggered attempts: %v", open))
-	for _, x := range []*peer{a, rB.p, rC.p, rD.p} {
-		if x != nil {
-			x.close()
-		}
-	}
-	bad := s.backend.lifecycle(3 * time.Second)
-	o.direct("lifecycle", n, len(bad) == 0, joinLines(bad))
-	s.stop()
-	o.syslog(n, s)
-	c.Stat("scenarios", 1)
-}
-
-// the takeover lands between the old connection's Dequeue returning a message and the message being
-// saved in the session: the message must not be lost, the newcomer gets it
-func takeoverDuringDequeue(o *out, c *hx.Ctx) {
-	n := o.scn("c13 takeover between Dequeue and SavePacket of the old connection")
-	s := startSys(3, 100)
-	s.backend.holdDequeueUntilClosing("deq", 1)
-	old, _ := dialPeer("old", s.port, true)
-	old.connect("deq", false, nil)
-	old.subscribe(1, "t", 1)
-	feeder, _ := dialPeer("feed", s.port, true)
-	feeder.connect("feed", true, nil)
-	feeder.send(&packet.Publish{ID: 1, Message: packet.Message{Topic: "t", Payload: payload(0, 1, 0), QOS: 1}})
-	feeder.await(func(g packet.Generic) bool { _, ok := g.(*packet.Puback); return ok }, time.Second)
-	time.Sleep(20 * time.Millisecond) // the old connection's dequeuer now holds the message at the gate
-	np, _ := dialPeer("new", s.port, true)
-	ack := np.connect("deq", false, nil)
-	got := np.await(func(g packet.Generic) bool { _, ok := g.(*packet.Publish); return ok }, 2*time.Second)
-	o.direct("takeover_keeps_message", n, ack != nil && got != nil,
-		fmt.Sprintf("newcomer connack=%v; the QoS 1 message accepted before the takeover reached the newcomer: %v", ack != nil, got != nil))
-	old.close()
-	np.close()
-	feeder.close()
-	s.stop()
-	o.syslog(n, s)
-	c.Stat("scenarios", 1)
-}
-
-// the witness of the open known finding: the displaced connection is blocked in a carrier
-// write (its peer stopped reading), so Close() cannot get the send mutex while Setup holds
-// the backend's mutexes
-func blockedTakeover(o *out, c *hx.Ctx) {
-	n := o.scn("c13 old connection blocked in a carrier write (known finding witness)")
-	s := startSys(10, 100)
-	a, b := net.Pipe() // unbuffered: a write blocks until the other side reads
-	s.engine.Handle(transport.NewNetConn(a))
-	old := transport.NewNetConn(b)
-	cp := packet.NewConnect()
-	cp.ClientID = "stuck"
-	cp.CleanSession = true
-	_ = old.Send(cp, false)
-	_, _ = old.Receive() // CONNACK
-	_ = old.Send(&packet.Subscribe{ID: 1, Subscriptions: []packet.Subscription{{Topic: "t", QOS: 0}}}, false)
-	_, _ = old.Receive() // SUBACK; from now on the old peer does not read any more
-	feeder, _ := dialPeer("feed", s.port, true)
-	feeder.connect("feed", true, nil)
-	big := make([]byte, 10000)
-	for i := 0; i < 5; i++ {
-		feeder.send(&packet.Publish{Message: packet.Message{Topic: "t", Payload: big}})
-	}
-	time.Sleep(50 * time.Millisecond)
-	newcomer, _ := dialPeer("newcomer", s.port, true)
-	got := make(chan bool, 1)
-	go func() { got <- newcomer.connect("stuck", true, nil) != nil }()
-	witnessOK := false
-	takeoverOK := false
-	select {
-	case takeoverOK = <-got:
-	case <-time.After(700 * time.Millisecond):
-	}
-	wit, _ := dialPeer("witness", s.port, true)
-	wgot := make(chan bool, 1)
-	go func() { wgot <- wit.connect("unrelated", true, nil) != nil }()
-	select {
-	case witnessOK = <-wgot:
-	case <-time.After(700 * time.Millisecond):
-	}
-	o.direct("takeover_blocked_in_write", n, takeoverOK && witnessOK,
-		fmt.Sprintf("old connection blocked in a carrier write: newcomer got CONNACK=%v, unrelated client got CONNACK=%v within 700ms", takeoverOK, witnessOK))
-	// unblock: the stuck peer goes away, the pending write fails
-	_ = b.Close()
-	time.Sleep(50 * time.Millisecond)
-	newcomer.close()
-	wit.close()
-	feeder.close()
-	s.stop()
-	o.syslog(n, s)
-}
-
-// ------------------------------------------------------------------- C14
-
-type hostile struct {
-	name string
-	run  func(port string, c *hx.Ctx)
-}
-
-func rawConn(port string) net.Conn {
-	conn, err := net.DialTimeout("tcp", "localhost:"+port, time.Second)
-	if err != nil {
-		return nil
-	}
-	return conn
-}
-
-func rawSend(port string, chunks ...[]byte) {
-	conn := rawConn(port)
-	if conn == nil {
-		return
-	}
-	defer conn.Close()
-	for _, ch := range chunks {
-		_ = conn.SetWriteDeadline(time.Now().Add(time.Second))
-		if _, err := conn.Write(ch); err != nil {
-			return
-		}
-	}
-	_ = conn.SetReadDeadline(time.Now().Add(50 * time.Millisecond))
-	buf := make([]byte, 4096)
-	for {
-		if _, err := conn.Read(buf); err != nil {
-			return
-		}
-	}
-}
-
-func enc(p packet.Generic) []byte {
-	buf := make([]byte, p.Len())
-	n, err := p.Encode(buf)
-	if err != nil {
-		return nil
-	}
-	return buf[:n]
-}
-
-// rawPublish builds a QoS 0 PUBLISH by hand (independent of the library's encoder, which a
-// regression may have made refuse boundary values the decoder still admits)
-func rawPublish(topic string, payload []byte) []byte {
-	rl := 2 + len(topic) + len(payload)
-	out := []byte{0x30}
-	for {
-		b := byte(rl % 128)
-		rl /= 128
-		if rl > 0 {
-			b |= 0x80
-		}
-		out = append(out, b)
-		if rl == 0 {
-			break
-		}
-	}
-	out = append(out, byte(len(topic)>>8), byte(len(topic)))
-	out = append(out, topic...)
-	return append(out, payload...)
-}
-
-func connectBytes(id string) []byte {
-	c := packet.NewConnect()
-	c.ClientID = id
-	return enc(c)
-}
-
-func connectBytesPersistent(id string) []byte {
-	c := packet.NewConnect()
-	c.ClientID = id
-	c.CleanSession = false
-	return enc(c)
-}
-
-func hostiles(c *hx.Ctx) []hostile {
-	big := strings.Repeat("x", 65535)
-	var hs []hostile
-	add := func(name string, f func(port string, c *hx.Ctx)) { hs = append(hs, hostile{name, f}) }
-	add("garbage", func(port string, c *hx.Ctx) {
-		for i := 0; i < 20; i++ {
-			b := make([]byte, 1+c.Rng.Intn(64))
-			c.Rng.Read(b)
-			rawSend(port, b)
-		}
-	})
-	add("truncated-frames", func(port string, c *hx.Ctx) {
-		full := append(connectBytes("h1"), enc(&packet.Publish{ID: 1, Message: packet.Message{Topic: "a", Payload: []byte("p"), QOS: 1}})...)
-		for k := 1; k < len(full); k += 3 {
-			rawSend(port, full[:k])
-		}
-	})
-	add("oversized-length", func(port string, c *hx.Ctx) {
-		rawSend(port, connectBytes("h2"), []byte{0x30, 0xff, 0xff, 0xff, 0x7f, 0x00, 0x01, 'a'})
-		rawSend(port, []byte{0x10, 0xff, 0xff, 0xff, 0xff, 0x01})
-		rawSend(port, []byte{0x30, 0x80, 0x80, 0x80, 0x80, 0x80, 0x01})
-	})
-	add("empty-and-odd-topics", func(port string, c *hx.Ctx) {
-		// raw encodings the library itself refuses to produce
-		rawSend(port, connectBytes("h3"), []byte{0x30, 0x02, 0x00, 0x00})                         // publish, empty topic
-		rawSend(port, connectBytes("h3"), []byte{0x32, 0x05, 0x00, 0x01, 'a', 0x00, 0x00})        // qos1 id 0
-		rawSend(port, connectBytes("h3"), []byte{0x36, 0x05, 0x00, 0x01, 'a', 0x00, 0x01})        // qos 3
-		rawSend(port, connectBytes("h3"), []byte{0x82, 0x05, 0x00, 0x01, 0x00, 0x00, 0x01})       // subscribe empty filter
-		rawSend(port, connectBytes("h3"), []byte{0x82, 0x06, 0x00, 0x01, 0x00, 0x01, 0x00, 0x01}) // filter with NUL
-		rawSend(port, connectBytes("h3"), enc(&packet.Publish{Message: packet.Message{Topic: "a/+/#", Payload: []byte("w")}}))
-		rawSend(port, connectBytes("h3"), enc(&packet.Publish{Message: packet.Message{Topic: "all", Payload: []byte("hostile")}}))
-		rawSend(port, connectBytes("h3"), enc(&packet.Publish{Message: packet.Message{Topic: "a\x00b", Payload: []byte("w")}}))
-		rawSend(port, connectBytes("h3"), enc(&packet.Publish{ID: 7, Message: packet.Message{Topic: big, Payload: []byte(big), QOS: 2}}))
-		rawSend(port, connectBytes("h3"), enc(&packet.Subscribe{ID: 1, Subscriptions: []packet.Subscription{{Topic: big, QOS: 1}, {Topic: "#", QOS: 2}, {Topic: "+/+/#", QOS: 0}}}))
-		// boundary values built by hand: the longest topic, the longest topic with a payload, a 65535-byte will topic
-		rawSend(port, connectBytes("h3"), rawPublish(big, nil))
-		rawSend(port, connectBytes("h3"), rawPublish(big, []byte(big)))
-		rawSend(port, connectBytes("h3"), rawPublish(big[:65534], []byte("x")))
-		// a will with empty topic
-		rawSend(port, []byte{0x10, 0x13, 0x00, 0x04, 'M', 'Q', 'T', 'T', 0x04, 0x06, 0x00, 0x00, 0x00, 0x01, 'w', 0x00, 0x00, 0x00, 0x01, 'x'})
-	})
-	add("invalid-filters", func(port string, c *hx.Ctx) {
-		// filters the specification forbids ('#' not last, wildcards sharing a level): the broker does not validate them,
-		// so they end up in the subscription tree; publishes that walk those nodes must not take the broker down
-		filters := []string{"a/#/b", "#/x", "a+/b", "+a/#", "a/#b", "/#/", "a/+/#/+", "#/#", "a/b#", "+/#/+"}
-		topics := []string{"a/x", "a/x/b", "a", "x", "a+/b", "/", "a/b", "a/b/c/d", "//", "a/#/b"}
-		for i, f := range filters {
-			chunks := [][]byte{connectBytes(fmt.Sprintf("h5-%d", i)), enc(&packet.Subscribe{ID: 1, Subscriptions: []packet.Subscription{{Topic: f, QOS: packet.QOS(i % 3)}}})}
-			for j, t := range topics {
-				chunks = append(chunks, enc(&packet.Publish{ID: packet.ID(10 + j), Message: packet.Message{Topic: t, Payload: []byte("w"), QOS: packet.QOS(j % 2)}}))
-			}
-			rawSend(port, chunks...)
-		}
-		// a persistent session keeps such a subscription beyond its connection; a will walks it too
-		rawSend(port, connectBytesPersistent("h5-p"), enc(&packet.Subscribe{ID: 1, Subscriptions: []packet.Subscription{{Topic: "a/#/b", QOS: 1}, {Topic: "w/#/x", QOS: 1}}}))
-		for _, t := range topics {
-			rawSend(port, connectBytes("h5-q"), enc(&packet.Publish{ID: 3, Message: packet.Message{Topic: t, Payload: []byte("w"), QOS: 1}}))
-		}
-	})
-	add("out-of-protocol", func(port string, c *hx.Ctx) {
-		pk := []packet.Generic{packet.NewConnack(), &packet.Suback{ID: 1, ReturnCodes: []packet.QOS{0}}, &packet.Unsuback{ID: 1}, &packet.Pingresp{},
-			&packet.Puback{ID: 77}, &packet.Pubrec{ID: 78}, &packet.Pubrel{ID: 79}, &packet.Pubcomp{ID: 80}, &packet.Pingreq{}, &packet.Disconnect{},
-			&packet.Unsubscribe{ID: 3, Topics: []string{"zz"}}}
-		for _, first := range pk {
-			rawSend(port, enc(first))
-		}
-		for i := 0; i < 30; i++ {
-			var chunks [][]byte
-			chunks = append(chunks, connectBytes(fmt.Sprintf("h4-%d", i%3)))
-			for j := 0; j < 1+c.Rng.Intn(6); j++ {
-				chunks = append(chunks, enc(pk[c.Rng.Intn(len(pk))]))
-			}
-			rawSend(port, chunks...)
-		}
-		rawSend(port, connectBytes("h4"), connectBytes("h4"))
-	})
-	add("storm", func(port string, c *hx.Ctx) {
-		var wg sync.WaitGroup
-		for i := 0; i < 40; i++ {
-			wg.Add(1)
-			go func(i int) {
-				defer wg.Done()
-				conn := rawConn(port)
-				if conn == nil {
-					return
-				}
-				if i%2 == 0 {
-					conn.Write(connectBytes(fmt.Sprintf("storm%d", i%5)))
-				}
-				if i%3 == 0 {
-					time.Sleep(time.Duration(i%7) * time.Millisecond)
-				}
-				conn.Close()
-			}(i)
-		}
-		wg.Wait()
-	})
-	add("subscriber-with-full-queue-dies", func(port string, c *hx.Ctx) {
-		// a subscriber that never acknowledges fills its window and queue; a publisher's QoS 1 publish then
-		// blocks inside the backend until the subscriber's connection goes away — it must be released then
-		subp, err := dialPeer("stall", port, false)
-		if err != nil || subp.connect("stall", true, nil) == nil {
-			return
-		}
-		subp.subscribe(1, "stall/#", 1)
-		pubp, err := dialPeer("stallpub", port, true)
-		if err != nil || pubp.connect("stallpub", true, nil) == nil {
-			return
-		}
-		for i := 1; i <= 1100; i++ {
-			pubp.send(&packet.Publish{ID: packet.ID(i), Message: packet.Message{Topic: "stall/x", Payload: []byte("p"), QOS: 1}})
-		}
-		time.Sleep(30 * time.Millisecond)
-		subp.close()
-		time.Sleep(30 * time.Millisecond)
-		pubp.close()
-	})
-	add("wildcard-flood-to-witness-topic", func(port string, c *hx.Ctx) {
-		p, err := dialPeer("flood", port, false)
-		if err != nil || p.connect("flood", true, nil) == nil {
-			return
-		}
-		p.subscribe(1, "#", 2) // subscribes to everything and never acknowledges nor reads fast
-		for i := 0; i < 50; i++ {
-			p.send(&packet.Publish{Message: packet.Message{Topic: "noise", Payload: []byte(big[:1000])}})
-		}
-		time.Sleep(20 * time.Millisecond)
-		p.close()
-	})
-	return hs
-}
-
-func runC14(c *hx.Ctx) {
-	o := &out{c: c}
-	base := runtime.NumGoroutine()
-	reps := 1
-	if c.Thorough() {
-		reps = 5
-	}
-	for rep := 0; rep < reps; rep++ {
-		for _, h := range hostiles(c) {
-			n := o.scn("c14 hostile=" + h.name)
-			s := startSys(10, 1000)
-			// witnesses exchange numbered traffic while the hostile peer acts
-			sub, _ := dialPeer("wsub", s.port, true)
-			pub, _ := dialPeer("wpub", s.port, true)
-			// a second witness subscribes to everything: whatever a hostile client manages to publish is forwarded to it
-			wall, _ := dialPeer("wall", s.port, true)
-			if wall == nil || wall.connect("wall", true, nil) == nil || !wall.subscribe(1, "#", 1) {
-				o.direct("witness", n, false, "the catch-all witness could not connect")
-				s.stop()
-				continue
-			}
-			if sub.connect("wsub", true, nil) == nil || pub.connect("wpub", true, nil) == nil || !sub.subscribe(1, "all", 1) {
-				o.direct("witness", n, false, "witnesses could not connect")
-				s.stop()
-				continue
-			}
-			stop := make(chan struct{})
-			sent := 0
-			var wg sync.WaitGroup
-			wg.Add(1)
-			go func() {
-				defer wg.Done()
-				for i := 0; ; i++ {
-					select {
-					case <-stop:
-						return
-					default:
-					}
-					if pub.send(&packet.Publish{ID: packet.ID(1 + i%60000), Message: packet.Message{Topic: "all", Payload: payload(1, 1, i), QOS: 1}}) != nil {
-						return
-					}
-					sent = i + 1
-					time.Sleep(500 * time.Microsecond)
-				}
-			}()
-			h.run(s.port, c)
-			close(stop)
-			wg.Wait()
-			sub.idle(30*time.Millisecond, 3*time.Second)
-			// the witnesses are still connected and every numbered message arrived, in order
-			alive := !sub.isClosed(10*time.Millisecond) && !pub.isClosed(10*time.Millisecond) && !wall.isClosed(10*time.Millisecond)
-			o.direct("witness_connected", n, alive, "all three witness connections are still open")
-			got := map[int]bool{}
-			for _, p := range sub.received() {
-				if pb, _, i, ok := parsePayload(p.Message.Payload); ok && pb == 1 {
-					got[i] = true
-				}
-			}
-			missing := []int{}
-			for i := 0; i < sent; i++ {
-				if !got[i] {
-					missing = append(missing, i)
-				}
-			}
-			sort.Ints(missing)
-			if len(missing) > 10 {
-				missing = missing[:10]
-			}
-			o.direct("witness_traffic", n, len(missing) == 0, fmt.Sprintf("sent %d, missing %v", sent, missing))
-			ok, d := checkOrder(sub.received())
-			o.direct("witness_order", n, ok, d)
-			sub.close()
-			pub.close()
-			wall.close()
-			time.Sleep(20 * time.Millisecond)
-			bad := s.backend.lifecycle(3 * time.Second)
-			o.direct("lifecycle", n, len(bad) == 0, joinLines(bad))
-			o.direct("shutdown", n, s.stop(), "backend and engine shut down in time")
-			o.syslog(n, s)
-			c.Stat("scenarios", 1)
-		}
-		// backend shutdown racing with connection setup, and backend calls failing
-		for _, kind := range []string{"shutdown-race", "fail-setup", "fail-publish", "fail-subscribe", "fail-terminate"} {
-			n := o.scn("c14 " + kind)
-			s := startSys(10, 1000)
-			if kind != "shutdown-race" {
-				s.backend.failNext[strings.TrimPrefix(kind, "fail-")] = 2
-			}
-			var wg sync.WaitGroup
-			for i := 0; i < 12; i++ {
-				wg.Add(1)
-				go func(i int) {
-					defer wg.Done()
-					p, err := dialPeer(fmt.Sprintf("r%d", i), s.port, true)
-					if err != nil {
-						return
-					}
-					if p.connect(fmt.Sprintf("r%d", i%4), i%2 == 0, &packet.Message{Topic: "w", Payload: []byte("x")}) != nil {
-						p.subscribe(1, "x/#", 1)
-						p.send(&packet.Publish{ID: 5, Message: packet.Message{Topic: "x/y", Payload: []byte("p"), QOS: 1}})
-						time.Sleep(time.Duration(i) * time.Millisecond)
-					}
-					p.close()
-				}(i)
-			}
-			if kind == "shutdown-race" {
-				time.Sleep(time.Duration(1+c.Rng.Intn(5)) * time.Millisecond)
-				s.backend.Close(2 * time.Second)
-			}
-			wg.Wait()
-			bad := s.backend.lifecycle(3 * time.Second)
-			o.direct("lifecycle", n, len(bad) == 0, joinLines(bad))
-			o.direct("shutdown", n, s.stop(), "backend and engine shut down in time")
-			o.syslog(n, s)
-			c.Stat("scenarios", 1)
-		}
-	}
-	closeThenConnect(o, c)
-	// no goroutine is left blocked once everything is shut down
-	leaked := 0
-	for i := 0; i < 100; i++ {
-		leaked = runtime.NumGoroutine() - base
-		if leaked <= 2 {
-			break
-		}
-		time.Sleep(20 * time.Millisecond)
-	}
-	detail := fmt.Sprintf("%d goroutines above the baseline after shutdown", leaked)
-	if leaked > 2 {
-		buf := make([]byte, 1<<16)
-		m := runtime.Stack(buf, true)
-		detail += ": " + strings.Replace(string(buf[:m]), "\n", " / ", -1)
-		if len(detail) > 3000 {
-			detail = detail[:3000]
-		}
-	}
-	o.direct("goroutines", 0, leaked <= 2, detail)
-}
